@@ -317,7 +317,8 @@ impl TransportManager {
         });
     }
 
-    /// `[tag, a, b]`: 0 Disconnected{None}; 1 Disconnected{Some a}; 2 Dialing a; 3 Opening a;
+    /// `[tag, a, b]`: 0 Disconnected{None}; 1 Disconnected{Some a}; 2 Dialing a; 3 Opening a over
+    /// the transports in the bitmask b (Tcp = 1, WebSocket = 2, Quic = 4);
     /// 4 Connected{a, None}; 5 Connected{a, Secondary b}; 6 Connected{a, Dialing b}; 9 unknown peer.
     pub fn verif_peer_state(&self, peer: &PeerId) -> [usize; 3] {
         let peers = self.peers.read();
@@ -329,7 +330,11 @@ impl TransportManager {
             PeerState::Disconnected { dial_record: Some(record) } =>
                 [1, record.connection_id.verif_as_usize(), 0],
             PeerState::Dialing { dial_record } => [2, dial_record.connection_id.verif_as_usize(), 0],
-            PeerState::Opening { connection_id, .. } => [3, connection_id.verif_as_usize(), 0],
+            PeerState::Opening { connection_id, transports, .. } => [
+                3,
+                connection_id.verif_as_usize(),
+                transports.iter().map(Self::verif_transport_bit).sum(),
+            ],
             PeerState::Connected { record, secondary: None } =>
                 [4, record.connection_id.verif_as_usize(), 0],
             PeerState::Connected { record, secondary: Some(SecondaryOrDialing::Secondary(s)) } =>
@@ -337,6 +342,30 @@ impl TransportManager {
             PeerState::Connected { record, secondary: Some(SecondaryOrDialing::Dialing(s)) } =>
                 [6, record.connection_id.verif_as_usize(), s.connection_id.verif_as_usize()],
         }
+    }
+
+    /// Bit of a transport in the masks reported by the hooks: Tcp = 1, WebSocket = 2, Quic = 4.
+    pub fn verif_transport_bit(transport: &SupportedTransport) -> usize {
+        match transport {
+            SupportedTransport::Tcp => 1,
+            #[cfg(feature = "websocket")]
+            SupportedTransport::WebSocket => 2,
+            #[cfg(feature = "quic")]
+            SupportedTransport::Quic => 4,
+            #[allow(unreachable_patterns)]
+            _ => 8,
+        }
+    }
+
+    /// `opening_errors`: `(connection id, number of errors kept for it)`, sorted by id.
+    pub fn verif_opening_errors(&self) -> Vec<(usize, usize)> {
+        let mut out: Vec<(usize, usize)> = self
+            .opening_errors
+            .iter()
+            .map(|(connection_id, errors)| (connection_id.verif_as_usize(), errors.len()))
+            .collect();
+        out.sort();
+        out
     }
 
     pub fn verif_has_addresses(&self, peer: &PeerId) -> bool {
